@@ -219,6 +219,9 @@ class Run:
     segs, cur = [], None
     for r in o.extra["raw"]:
       if r[0] == "step":
+        if r[1] in ("SUBSCRIBE_META_SIGNAL", "PUBLISH_META_SIGNAL"):
+          cur = None          # the object's own housekeeping event: no step of the chart's model
+          continue
         cur = []
         segs.append(cur)
       elif cur is not None:
